@@ -18,7 +18,7 @@ from ..engine.nandomain import F, NanInterp, nan
 from ..engine.report import AnalysisError, Run
 from ..engine.resolver import ClassInfo, FuncInfo, Program, body_walk
 from ..engine.util import canon, method_call, nodes_with_call, u
-from ._c06_util import Flow, Site, lifted, names_eq, pruned, result_sites, seg, select_ifexp, spliced, src_patch, stmt_patch, unawait
+from ._c06_util import Flow, HelperCalls, Site, lifted, names_eq, pruned, result_sites, seg, select_ifexp, spliced, src_patch, stmt_patch, unawait
 
 STEPS = "timeseries.formula_engine._formula_steps"
 EVAL = "timeseries.formula_engine._formula_evaluator"
@@ -31,6 +31,17 @@ def step_classes(prog: Program) -> list[ClassInfo]:
     if len(out) < 10:
         raise AnalysisError(f"only {len(out)} FormulaStep subclasses with apply() found")
     return out
+
+
+class StepInterp(HelperCalls, NanInterp):
+    """NaN-domain interpreter that also interprets calls of the step module's private functions and of
+    the step class's own methods (helpers are read as code, whatever their shape)."""
+
+
+def step_interp(prog: Program, fn: FuncInfo, fields: Any) -> StepInterp:
+    it = StepInterp(fields)
+    it.bind_helpers(prog, fn)
+    return it
 
 
 def _self_fields(attr: str) -> list[Any]:
@@ -55,10 +66,10 @@ def run_step(fn: FuncInfo, tops: list[Any], fields: dict[str, Any] | None = None
     return outs, results
 
 
-def arity_of(fn: FuncInfo) -> int:
+def arity_of(fn: FuncInfo, prog: Program | None = None) -> int:
     """Number of operands popped, measured on an all-finite run."""
     mk = [lambda i=i: F("fin", f"x{i}") for i in range(4)]
-    interp = NanInterp(_self_fields)
+    interp = step_interp(prog, fn, _self_fields) if prog is not None else NanInterp(_self_fields)
     param = fn.params[1]
     seen: set[int] = set()
     stacks: list[tuple[list[Any], list[Any]]] = []
@@ -83,7 +94,7 @@ def check_steps(run: Run, prog: Program, drops_round: bool, total_rule: str = "C
     """`only_total`: decide only the totality obligation, under `total_rule` (C06 shares it: a raising
     step makes FormulaEngine._run drop the round, i.e. skip a timestamp)."""
     for cls in step_classes(prog):
-        fn = spliced(prog, cls.methods["apply"])  # private helpers (module / class level) read as part of the step
+        fn = cls.methods["apply"]  # private helpers (module / class level) are interpreted as part of the step
         run.analysed(fn.qual)
         if cls.name == "MetricFetcher":
             continue
@@ -94,7 +105,7 @@ def check_steps(run: Run, prog: Program, drops_round: bool, total_rule: str = "C
                 run.check(not touched, "C13.NAN", fn.qual, "OpenParen.apply",
                           "OpenParen.apply manipulates the stack", node=fn.node, file=fn.file)
             continue
-        k = arity_of(fn)
+        k = arity_of(fn, prog)
         names = ["a", "b", "c"][:k]
         # --- all finite: totality and stack effect
         scenarios: list[tuple[str, list[Any]]] = []
@@ -104,7 +115,7 @@ def check_steps(run: Run, prog: Program, drops_round: bool, total_rule: str = "C
         divides = any(isinstance(x, ast.BinOp) and isinstance(x.op, (ast.Div, ast.FloorDiv, ast.Mod)) for x in ast.walk(fn.node))
         finite_outs: list[tuple[Any, Any, str]] = []  # (outcome, lifted result, instance) of the all-finite scenario
         for label, tops in scenarios:
-            interp = NanInterp(_self_fields)
+            interp = step_interp(prog, fn, _self_fields)
             param = fn.params[1]
             stacks: list[list[Any]] = []
 
@@ -214,13 +225,13 @@ def _result_stmt(fn: FuncInfo) -> str:
 
 # ---------------------------------------------------------------------------------------------
 def check_fetcher(run: Run, prog: Program) -> None:
-    fn = spliced(prog, prog.func(f"{STEPS}:MetricFetcher.apply"))
+    fn = prog.func(f"{STEPS}:MetricFetcher.apply")
     run.analysed(fn.qual)
     param = fn.params[1]
     cases = 0
     for kind in ("none", "nan", "inf", "valid"):
         for naz in (False, True):
-            interp = NanInterp(lambda attr: [None])
+            interp = step_interp(prog, fn, lambda attr: [None])
             stacks: list[list[Any]] = []
 
             def make_args(kind=kind, naz=naz, stacks=stacks) -> dict[str, Any]:
@@ -257,7 +268,7 @@ def check_fetcher(run: Run, prog: Program) -> None:
     if cases < 8:
         raise AnalysisError("C13.FETCH: fewer than 8 fetcher cases interpreted")
     # no next value at all -> must not silently push
-    interp = NanInterp(lambda attr: [None])
+    interp = step_interp(prog, fn, lambda attr: [None])
     stacks2: list[list[Any]] = []
 
     def make_none() -> dict[str, Any]:
